@@ -1,4 +1,4 @@
-(* Flow -- justification of the one abstraction in the loader model (DESIGN.md section 5): Loader.chk_flow
+(* FlowThm -- justification of the one abstraction in the loader model (DESIGN.md section 5): Loader.chk_flow
    decides BlockedCapError by "no path in the capability graph", while the code builds an analysis graph
    (model/Flow.v: _make_cap_graph, _get_anal_graph, _aug_out_ports, split_nodes, _dist_edge_caps -- compared
    step by step with the implementation's own helper functions by the `flow` correspondence) and asks
